@@ -60,6 +60,12 @@ int main(int argc, char** argv)
               if (!ok) { if (!bad) first = "csv text with sub-fields (mapping " + std::to_string(mk) + ", ignore_empty_values " + std::to_string(iev) + "): " + why; ++bad; continue; }
               json j = csv::decode_csv<json>(doc, o); (void)j; }
         catch (const std::exception& e) { if (!bad) first = std::string("csv text with sub-fields (mapping ") + std::to_string(mk) + ", ignore_empty_values " + std::to_string(iev) + ") is refused: " + e.what(); ++bad; } }
+    // the end of the input and a final line break give the same value, also when every value of the last record is an ignored empty field (F53); always a value or a json_exception
+    for (const char* body : {"\"\"", "\"\" ", "1x\"\"", "1,\"\"", " ", ","}) for (int mk = 1; mk <= 3; ++mk) for (int hdr = 0; hdr < 2; ++hdr) { ++total;
+        std::string t1 = std::string("a,b\n") + body, t2 = t1 + "\n"; auto o = csv::csv_options{}.assume_header(hdr != 0).ignore_empty_values(true).trim_trailing(true).mapping_kind((csv::csv_mapping_kind)mk);
+        try { json j1 = csv::decode_csv<json>(t1, o), j2 = csv::decode_csv<json>(t2, o); if (j1 != j2) { if (!bad) first = "ignore_empty_values: the text ending in " + std::string(body) + " without a final line break decodes to " + j1.to_string() + ", with one to " + j2.to_string(); ++bad; } }
+        catch (const jsoncons::json_exception&) {}
+        catch (const std::exception& e) { if (!bad) first = std::string("foreign exception for a record of ignored empty values at the end of the input (") + body + "): " + e.what(); ++bad; } }
     if (bad) VX_REPRO(bad << " of " << total << " csv round trips differ, first: " << first);
     VX_NOREPRO("all " << total << " csv round trips are the identity");
 }
